@@ -246,6 +246,14 @@ class RepEngine:
                 if v is not None and pat.get("k") == "PLit" and pat.get("v") in ("true", "false"):
                     if (pat["v"] == "true") != v:
                         return None
+                # match (a.is_ntt_form(), b.is_ntt_form()) { (true, false) => .. }
+                sc = strip(n["e"])
+                if sc.get("k") == "Tup" and pat.get("k") == "PTuple" and len(sc["es"]) == len(pat["ps"]):
+                    for comp, q in zip(sc["es"], pat["ps"]):
+                        cv = bool_of(comp, st)
+                        if cv is not None and q.get("k") == "PLit" and q.get("v") in ("true", "false") and \
+                                (q["v"] == "true") != cv:
+                            return None
                 return st
             if kind in ("if", "while"):
                 v = bool_of(n["c"], st)
